@@ -71,13 +71,13 @@ def loopy_bodies(prog):
     key = id(prog)
     if key in _LOOPY:
         return _LOOPY[key]
-    direct = {k for k, b in prog.bodies.items() if b.kind in ("fn", "closure") and b.loops()}
+    direct = {k for k, b in prog.bodies.items() if not b.ext and b.kind in ("fn", "closure") and b.loops()}
     callers = {}
     for k, b in prog.bodies.items():
-        if b.kind not in ("fn", "closure"):
+        if b.ext or b.kind not in ("fn", "closure"):
             continue
         for kind, tgt, t, bb in prog.call_edges(b):
-            if kind in ("call", "closure", "fnptr") and tgt in prog.bodies:
+            if kind in ("call", "closure", "fnptr") and prog.is_ws(tgt):
                 callers.setdefault(tgt, set()).add(k)
     out = set(direct)
     work = list(direct)
@@ -113,6 +113,8 @@ class TotalWorld(OracleWorld):
 
     def finding(self, st, kind, detail, term=None):
         fr = st.frames[-1]
+        if fr.body.ext:
+            return  # inside an interpreted std body: std is assumed total (DESIGN §8)
         sp = (term or fr.body.blocks[fr.bb]["term"]).get("span") or {}
         from .mir import norm_file
 
@@ -277,6 +279,8 @@ class TotalWorld(OracleWorld):
         return Tup((res, Sym(("unproved-overflow", op, repr(a), repr(b)), "bool")))
 
     def visit_assert(self, st, term):
+        if st.frames[-1].body.ext:
+            return
         self.visited_sites.add(self.site(st))
 
     def on_assert(self, m, st, term, cond):
@@ -305,7 +309,7 @@ class TotalWorld(OracleWorld):
         if callee.get("virtual") or not callee["resolved"]:
             # dyn / generic trait call: every implementation is analysed separately as a root
             return self.fresh(st, self.dest_ty(st, term), "unresolved:" + callee["name"])
-        if p in self.prog.bodies:
+        if self.prog.is_ws(p):
             # a callee that is itself a root is analysed for all arguments on its own; it is cut here only
             # when it (transitively) contains a loop — loop-free roots are inlined, which keeps their
             # post-conditions (e.g. "partial_cmp never returns None")
@@ -324,6 +328,8 @@ class TotalWorld(OracleWorld):
             r = m.models[p](m, st, callee, args, term)
             if r is not None:
                 return r
+        if p in self.prog.bodies and m.ext_simple(p):
+            return None  # an exported std combinator made of plain MIR: interpret it (its closures get visited)
         return self.fresh(st, self.dest_ty(st, term), "ext:" + callee["name"])
 
     def indirect_call(self, m, st, fval, args, term):
@@ -456,7 +462,7 @@ class TotalWorld(OracleWorld):
     def str_find(self, m, st, s, pred):
         tag = self.tag_of(s)
         ans = self.decide(st, "find", ["None", "Some"])
-        if isinstance(pred, (ip.Clo, Ref)) or (isinstance(pred, ip.Fn) and pred.path in self.prog.bodies):
+        if isinstance(pred, (ip.Clo, Ref)) or (isinstance(pred, ip.Fn) and self.prog.is_ws(pred.path)):
             self.probe(m, st, pred, [Sym(("ch", self.n(st)), "char")])
         if ans == "None":
             return ip.none()
